@@ -186,23 +186,23 @@ def main(argv: List[str]) -> int:
         def inside(node, w):
             return any(node is x for x in ast.walk(w))
 
-        ob(bool(flag_tests) and bool(flag_sets), "ownership:_resolve_forward_references:once-flag", "the once-only flag is not tested and set", found=False)
-        # the flag is set on every path that performs the resolution: last statement of the guarded block
-        if flag_tests and flag_sets:
-            # sequential clause: the set is in the same guarded block as the resolution, after it
-            blk = flag_tests[0].body
-            ob(any(inside(flag_sets[0], s) for s in blk), "ownership:_resolve_forward_references:flag-set-in-guard", "the flag is not set inside the guarded block: a second call would resolve again / never resolve")
+        # Under a lock that spans every access (checked next) neither the position of the flag assignment nor the existence of the
+        # flag matters for this property (re-resolving under the lock is idempotent); the order "resolve, then set the flag" is an
+        # obligation only for the lock-free snapshot discipline (b).
         # (a) lock discipline: one `with <module-level lock>` spans test, iteration, mutation and set
         if withs:
             w = withs[0]
-            spans = all(inside(x, w) for x in shared_iter + mutating + flag_sets) and any(inside(t, w) for t in flag_tests)
+            flag_reads = [x for x in ast.walk(rf) if isinstance(x, ast.Name) and x.id == "_resolved_forward_references" and isinstance(x.ctx, ast.Load)]
+            spans = all(inside(x, w) for x in shared_iter + mutating + flag_sets + flag_reads)
             lock_ok = spans
         # (b) alternative discipline: atomic snapshot + private copy handed to the mutating callee
         snapshot_ok = False
         if not lock_ok and shared_iter and mutating:
             snap = all(_is_atomic_snapshot(rf, it) for it in shared_iter)
             private = all("ALL_TYPES_MAP" not in ast.unparse(m) or "dict(" in ast.unparse(m) or ".copy()" in ast.unparse(m) for m in mutating)
-            snapshot_ok = snap and private
+            # lock-free: the flag may only be set after the resolution loop (a thread that sees it set must find resolved classes)
+            ordered = bool(flag_sets) and all(max(m.lineno for m in mutating) < fs.lineno for fs in flag_sets)
+            snapshot_ok = snap and private and ordered
         if not (lock_ok or snapshot_ok):
             w = replay_race()
             ob(
